@@ -154,4 +154,56 @@ def getNameList : Getter (List Bytes) := fun b =>
 /-- `check_end()`: everything consumed -/
 def atEnd (b : Bytes) : Bool := b.isEmpty
 
+/-! ### text decoding of message fields (`bytes.decode('ascii')`, strict `bytes.decode('utf-8')`) -/
+
+/-- `b.decode('ascii')` succeeds -/
+def isAscii (b : Bytes) : Bool := b.all (· < 128)
+
+/-- states of the UTF-8 acceptor (Unicode Table 3-7) -/
+inductive U8State where
+  | start
+  | t1            -- one continuation byte 80..BF expected
+  | t2            -- two continuation bytes expected
+  | t2lo          -- after E0: A0..BF then t1
+  | t2hi          -- after ED: 80..9F then t1
+  | t3            -- three continuation bytes expected
+  | t3lo          -- after F0: 90..BF then t2
+  | t3hi          -- after F4: 80..8F then t2
+  deriving DecidableEq, Repr
+
+def u8Step (s : U8State) (b : UInt8) : Option U8State :=
+  let n := b.toNat
+  match s with
+  | .start =>
+    if n < 0x80 then some .start
+    else if 0xC2 ≤ n ∧ n ≤ 0xDF then some .t1
+    else if n = 0xE0 then some .t2lo
+    else if n = 0xED then some .t2hi
+    else if 0xE1 ≤ n ∧ n ≤ 0xEF then some .t2
+    else if n = 0xF0 then some .t3lo
+    else if 0xF1 ≤ n ∧ n ≤ 0xF3 then some .t3
+    else if n = 0xF4 then some .t3hi
+    else none
+  | .t1 => if 0x80 ≤ n ∧ n ≤ 0xBF then some .start else none
+  | .t2 => if 0x80 ≤ n ∧ n ≤ 0xBF then some .t1 else none
+  | .t2lo => if 0xA0 ≤ n ∧ n ≤ 0xBF then some .t1 else none
+  | .t2hi => if 0x80 ≤ n ∧ n ≤ 0x9F then some .t1 else none
+  | .t3 => if 0x80 ≤ n ∧ n ≤ 0xBF then some .t2 else none
+  | .t3lo => if 0x90 ≤ n ∧ n ≤ 0xBF then some .t2 else none
+  | .t3hi => if 0x80 ≤ n ∧ n ≤ 0x8F then some .t2 else none
+
+def u8Run : U8State → Bytes → Option U8State
+  | s, [] => some s
+  | s, b :: r => match u8Step s b with
+    | some s' => u8Run s' r
+    | none => none
+
+/-- `b.decode('utf-8')` (errors='strict') succeeds -/
+def validUtf8 (b : Bytes) : Bool := u8Run .start b == some .start
+
+/-- `needle in haystack` for byte strings -/
+def hasInfix (needle : Bytes) : Bytes → Bool
+  | [] => needle.isEmpty
+  | c :: cs => (needle.isPrefixOf (c :: cs)) || hasInfix needle cs
+
 end AsyncsshModel.KexWire
